@@ -71,6 +71,14 @@ fn plan_for(property: &str) -> Option<Plan> {
       params_quick: &[("max_batch", 1000)],
       params_thorough: &[("max_batch", 100000)],
     },
+    "C12" => Plan {
+      engine: "world",
+      level: "exploration",
+      quick_runs: 3_000,
+      thorough_runs: 300_000,
+      params_quick: &[],
+      params_thorough: &[],
+    },
     "C14" => Plan {
       engine: "world",
       level: "exploration",
